@@ -1,12 +1,13 @@
 """Generator of well-formed debian/changelog texts (deb-changelog(5)) with known components."""
 
 PKGS = ["foo", "lib-x.y+z", "0ad", "a"]
-VERS = ["1.0-1", "2:1.0~rc1+b1", "1", "0.1-2-3"]
+VERS = ["1.0-1", "2:1.0~rc1+b1", "1", "0.1-2-3", "3:2.0:r7-2", "1:0.9:20060611"]
 DISTS = ["unstable", "stable-proposed-updates", "experimental", "UNRELEASED", "a.b"]
 URG = ["low", "medium", "high", "emergency", "critical", "LOW"]
 UCOMMENT = ["", " (HIGH for security)", " extra words", " (100% sure)", " (HIGH for users of x; see NEWS)"]
 PAIRS = [[], [("binary-only", "yes")], [("xs-origin", "vendor"), ("binary-only", "no")], [("a-1", "x y")],
-         [("x-coverage", "85%")], [("x-fmt", "%s %(a)d 5%%"), ("binary-only", "yes")], [("x-odd", "{0} \\n $HOME")]]
+         [("x-coverage", "85%")], [("x-fmt", "%s %(a)d 5%%"), ("binary-only", "yes")], [("x-odd", "{0} \\n $HOME")],
+         [("c", "x")], [("gen", "1"), ("urge", "2")], [("Urgenc", "low")]]
 CHANGES = ["  * Fix.", "  * Closes: #123, #456", "    continued line", "  * non-ASCII: é ü ß", "  * colon: and # hash",
            "  [ Some One ]", "  \t* tab after two spaces", "  * trailing space  ", "   "]
 AUTHORS = [("A B", "a@b.org"), ("Only", "x@y"), ("Ünï Cödé", "u@example.org"), ("", "root@localhost")]
